@@ -131,6 +131,58 @@ fn emit_enc<T: Reg + Encode>(ctx: &mut Ctx, v: &T) {
 	ctx.emit(&T::name(), Value::Object(m));
 }
 
+/// the largest element count the format can represent (2^32 - 1) must encode without panicking; zero-sized
+/// elements make it affordable (the implementation still iterates 2^32 - 1 times: seconds)
+pub fn drive_enc_maxcount(ctx: &mut Ctx) {
+	if !ctx.wants("Vec<()>") {
+		return;
+	}
+	for n in [u32::MAX as usize, u32::MAX as usize - 1] {
+		let v: Vec<()> = vec![(); n];
+		let mut m = header::<Vec<()>>("enc");
+		m.insert("v".into(), json!({"rep": digits(n as u128, 4)}));
+		match guarded(|| v.encode()) {
+			Ok(out) => { m.insert("res".into(), json!("ok")); m.insert("out".into(), bytes_json(&out)); },
+			Err(()) => { m.insert("res".into(), json!("panic")); m.insert("out".into(), json!([])); },
+		}
+		ctx.emit("Vec<()>", Value::Object(m));
+		if ctx.tier != "thorough" { break }
+	}
+}
+
+/// bit sequences longer than 2^29 - 1 bits are rejected even when the data is there (64 MiB of it)
+#[cfg(feature = "bit-vec")]
+pub fn drive_bitcap(ctx: &mut Ctx) {
+	use bitvec::{order::{Lsb0, Msb0}, vec::BitVec};
+	if !ctx.wants("BitVec") {
+		return;
+	}
+	fn one<T: Decode>(ctx: &mut Ctx, tn: &str, w: usize, nbits: u64) {
+		let mut inp = vec![3u8];
+		inp.extend_from_slice(&(nbits as u32).to_le_bytes());
+		if nbits < (1 << 30) { inp = (((nbits as u32) << 2) | 2).to_le_bytes().to_vec(); }
+		let head = inp.len();
+		let payload = ((nbits as usize + 8 * w - 1) / (8 * w)) * w;
+		inp.resize(head + payload + 3, 0);
+		let mut s = &inp[..];
+		let r = guarded(|| T::decode(&mut s));
+		let res = match &r { Ok(Ok(_)) => "ok", Ok(Err(_)) => "err", Err(()) => "panic" };
+		let consumed = inp.len() - s.len();
+		drop(r);
+		let rec = json!({"k":"bitcap","tn":tn,"w":w,"nbits":digits(nbits as u128, 8),"head":head,"payload":payload,"res":res,"n":consumed,"sig":[w, nbits]});
+		ctx.emit(tn, rec);
+	}
+	let cap: u64 = (1 << 29) - 1;
+	one::<BitVec<u8, Lsb0>>(ctx, "BitVec<u8,lsb0>", 1, cap);
+	one::<BitVec<u8, Lsb0>>(ctx, "BitVec<u8,lsb0>", 1, cap + 1);
+	one::<BitVec<u64, Msb0>>(ctx, "BitVec<u64,msb0>", 8, cap + 1);
+	if ctx.tier == "thorough" {
+		one::<BitVec<u64, Msb0>>(ctx, "BitVec<u64,msb0>", 8, cap);
+		one::<BitVec<u32, Lsb0>>(ctx, "BitVec<u32,lsb0>", 4, cap + 65);
+		one::<BitVec<u16, Msb0>>(ctx, "BitVec<u16,msb0>", 2, 1 << 30);
+	}
+}
+
 // ------------------------------------------------------------------ C02: round trips
 
 pub fn drive_rt<T: Reg + Encode + Decode>(ctx: &mut Ctx, elem_size: Option<usize>) {
@@ -143,6 +195,18 @@ pub fn drive_rt<T: Reg + Encode + Decode>(ctx: &mut Ctx, elem_size: Option<usize
 	for _ in 0..n {
 		let v = T::gen(&mut g);
 		emit_rt::<T>(ctx, &mut g, &v);
+	}
+	// strings and bit sequences are bulk-read in 16 KiB chunks as well
+	let kind = T::descr().get("k").and_then(|k| k.as_str()).map(|x| x.to_string()).unwrap_or_default();
+	if elem_size.is_none() && (kind == "str" || kind == "bits") {
+		let w = T::descr().get("w").and_then(|w| w.as_u64()).unwrap_or(1) as usize;
+		let lens: Vec<usize> = if kind == "str" { vec![16383, 16384, 16385, 32769] } else { vec![16384 * 8 - 1, 16384 * 8, 16384 * 8 + 8 * w + 1] };
+		let take = if ctx.tier == "thorough" { lens.len() } else { 2 };
+		for l in lens.into_iter().skip(1).take(take) {
+			if let Some(v) = T::gen_len(&mut g, l) {
+				emit_rt::<T>(ctx, &mut g, &v);
+			}
+		}
 	}
 	if let Some(sz) = elem_size {
 		let mut lens = window_lengths(sz);
@@ -587,8 +651,13 @@ pub fn drive_dec<T: Reg + Encode + Decode>(ctx: &mut Ctx, mem_tracking: bool) {
 			},
 			"C12" => {
 				let u = okinfo.map(|x| x.1).unwrap_or(64);
-				let ls: Vec<u128> = if u <= 4096 && ctx.tier == "thorough" {
+				let ls: Vec<u128> = if u <= 512 && ctx.tier == "thorough" {
+					// every limit: each value of L makes a different allocation the failing one
 					(0..=u + 1).collect()
+				} else if u <= 4096 && ctx.tier == "thorough" {
+					let mut v: Vec<u128> = (0..=u + 1).step_by(((u / 96) as usize).max(1)).collect();
+					v.extend([u - 1, u, u + 1]);
+					v
 				} else if u <= 64 {
 					(0..=u + 1).collect()
 				} else {
@@ -605,6 +674,12 @@ pub fn drive_dec<T: Reg + Encode + Decode>(ctx: &mut Ctx, mem_tracking: bool) {
 			_ => {},
 		}
 		m.insert("runs".into(), Value::Array(runs));
+		if prop == "C11" {
+			let mut s = &inp[..];
+			let r = guarded(|| T::decode_all_with_depth_limit(u32::MAX, &mut s));
+			let (res, v) = res_json(&r);
+			m.insert("alld".into(), json!({"res":res,"v":v}));
+		}
 		if prop == "C14" {
 			let mut s = &inp[..];
 			let r = guarded(|| T::decode_all(&mut s));
@@ -934,6 +1009,31 @@ pub fn entry_points<T: Encode>(v: &T) -> Vec<Value> {
 		Err(()) => alts.push(json!({"kind":"size","res":"panic","n":0})),
 	}
 	alts
+}
+
+/// Joiner / KeyedVec (outside the listed properties, part of the crate's encoding surface): `prefix.and(&v)` and
+/// `v.to_keyed_vec(prefix)` are the prefix followed by the encoding of v.
+pub fn drive_join<T: Reg + Encode + Decode>(ctx: &mut Ctx) {
+	use parity_scale_codec::{Joiner, KeyedVec};
+	let tn = T::name();
+	if !ctx.wants(&tn) {
+		return;
+	}
+	let mut g = ctx.rng_for(&tn, 21);
+	for _ in 0..(3 * ctx.scale) {
+		let v = T::gen(&mut g);
+		let pre: Vec<u8> = (0..g.below(5)).map(|_| g.byte()).collect();
+		let mut m = header::<T>("join");
+		m.insert("v".into(), v.abs());
+		m.insert("pre".into(), bytes_json(&pre));
+		let a = guarded(|| pre.clone().and(&v));
+		let b = guarded(|| v.to_keyed_vec(&pre));
+		m.insert("res".into(), json!(if a.is_ok() && b.is_ok() { "ok" } else { "panic" }));
+		m.insert("and".into(), bytes_json(&a.unwrap_or_default()));
+		m.insert("keyed".into(), bytes_json(&b.unwrap_or_default()));
+		m.insert("out".into(), bytes_json(&pre));
+		ctx.emit(&tn, Value::Object(m));
+	}
 }
 
 pub fn drive_entries<T: Reg + Encode>(ctx: &mut Ctx) {
